@@ -109,8 +109,19 @@ func mpDom(m Term) string { return sx("dom_"+m.Sort.Name, m.S) }
 func mpVal(m Term) string { return sx("val_"+m.Sort.Name, m.S) }
 func mpNil(m Term) Term   { return Term{sx("mnil_"+m.Sort.Name, m.S), SBool} }
 func mpHas(m, k Term) Term { return Term{sx("select", mpDom(m), k.S), SBool} }
+// mpGet: map read. Every map value of the program satisfies "val[k] is the zero value outside the key set"
+// (established at creation, kept by stores and deletes, assumed for symbolic maps: mapWf), so a read is a plain select.
 func (ss *Sorts) mpGet(m, k Term) Term {
-	return Term{sx("ite", mpHas(m, k).S, sx("select", mpVal(m), k.S), ss.Zero(m.Sort.Elem)), m.Sort.Elem}
+	return Term{sx("select", mpVal(m), k.S), m.Sort.Elem}
+}
+
+// mapWf: well-formedness facts of a symbolic map value (zero outside the key set; a nil map has no keys).
+func (ss *Sorts) mapWf(m Term) []string {
+	kn := m.Sort.Key.Name
+	return []string{
+		"(forall ((wk " + kn + ")) (! (=> (not (select " + mpDom(m) + " wk)) (= (select " + mpVal(m) + " wk) " + ss.Zero(m.Sort.Elem) + ")) :pattern ((select " + mpVal(m) + " wk))))",
+		"(=> " + mpNil(m).S + " (forall ((wk " + kn + ")) (! (not (select " + mpDom(m) + " wk)) :pattern ((select " + mpDom(m) + " wk)))))",
+	}
 }
 func mpRaw(m, k Term) Term { return Term{sx("select", mpVal(m), k.S), m.Sort.Elem} }
 func mkMap(so *Sort, dom, val, isnil string) Term { return Term{sx(so.Mk, dom, val, isnil), so} }
